@@ -244,9 +244,9 @@ impl UsesTypeParams for syn::TypeParamBound {
         match *self {
             syn::TypeParamBound::Trait(ref v) => v.uses_type_params(options, type_set),
             syn::TypeParamBound::Lifetime(_) => Default::default(),
-            // non-exhaustive enum
-            // TODO: replace panic with failible function
-            _ => panic!("Unknown syn::TypeParamBound: {:?}", self),
+            // non-exhaustive enum: bounds this crate cannot look into (such as `use<..>`
+            // captures) contribute no usages rather than aborting the derive.
+            _ => Default::default(),
         }
     }
 }
